@@ -170,9 +170,27 @@ def build():
     an = strip_comments(read("src/zonetree/answer.rs"))
     tm = fn_body(an, "to_message")
     one(r"let\s+question\s*=\s*message\.sole_question\(\)\.unwrap\(\);\s*let\s+qname\s*=\s*question\.qname\(\);\s*let\s+qclass\s*=\s*question\.qclass\(\);\s*let\s+mut\s+builder\s*=\s*builder\.start_answer\(message,\s*self\.rcode\)\.unwrap\(\);\s*if\s+self\.authoritative\s*\{\s*builder\.header_mut\(\)\.set_aa\(true\);\s*\}", tm, "to_message: start_answer, AA")
-    one(r"AnswerContent::Data\(ref\s+answer\)\s*=>\s*\{\s*for\s+item\s+in\s+answer\.data\(\)\s*\{\s*builder\s*\.push\(\(qname,\s*qclass,\s*answer\.ttl\(\),\s*item\)\)\s*\.unwrap\(\);\s*\}\s*\}\s*AnswerContent::Cname\(ref\s+cname\)\s*=>\s*builder\s*\.push\(\(qname,\s*qclass,\s*cname\.ttl\(\),\s*cname\.data\(\)\)\)\s*\.unwrap\(\)\s*,\s*AnswerContent::NoData\s*=>\s*\{\s*\}", tm, "to_message: answer section")
-    one(r"let\s+mut\s+builder\s*=\s*builder\.authority\(\);\s*if\s+let\s+Some\(authority\)\s*=\s*self\.authority\.as_ref\(\)\s*\{\s*if\s+let\s+Some\(soa\)\s*=\s*authority\.soa\.as_ref\(\)\s*\{\s*builder\s*\.push\(\(\s*authority\.owner\.clone\(\),\s*qclass,\s*soa\.ttl\(\),\s*soa\.data\(\),?\s*\)\)\s*\.unwrap\(\);\s*\}\s*if\s+let\s+Some\(ns\)\s*=\s*authority\.ns\.as_ref\(\)\s*\{\s*for\s+item\s+in\s+ns\.data\(\)\s*\{\s*builder\s*\.push\(\(\s*authority\.owner\.clone\(\),\s*qclass,\s*ns\.ttl\(\),\s*item,?\s*\)\)\s*\.unwrap\(\)\s*\}\s*\}\s*if\s+let\s+Some\(ref\s+ds\)\s*=\s*authority\.ds\s*\{\s*for\s+item\s+in\s+ds\.data\(\)\s*\{\s*builder\s*\.push\(\(\s*authority\.owner\.clone\(\),\s*qclass,\s*ds\.ttl\(\),\s*item,?\s*\)\)\s*\.unwrap\(\)\s*\}\s*\}\s*\}", tm, "to_message: authority section SOA, NS, DS")
-    one(r"let\s+mut\s+builder\s*=\s*builder\.additional\(\);\s*if\s+let\s+Some\(additional\)\s*=\s*self\.additional\.as_ref\(\)\s*\{\s*for\s+item\s+in\s+&additional\.required\s*\{\s*builder\.push\(item\)\.unwrap\(\);\s*\}\s*for\s+item\s+in\s+&additional\.discardable\s*\{\s*if\s+builder\.push\(item\)\.is_err\(\)\s*\{\s*break;\s*\}\s*\}\s*\}\s*builder\s*$", tm, "to_message: additional section")
+    P = lambda args: r"builder\s*\.push\(" + args + r"\)"
+    a_item = r"\(qname,\s*qclass,\s*answer\.ttl\(\),\s*item\)"
+    a_cname = r"\(qname,\s*qclass,\s*cname\.ttl\(\),\s*cname\.data\(\)\)"
+    au = lambda ttl, d: r"\(\s*authority\.owner\.clone\(\),\s*qclass,\s*" + ttl + r"\.ttl\(\),\s*" + d + r",?\s*\)"
+    unwrapping = len(re.findall(r"\.unwrap\(\)", tm))
+    if "truncated" not in tm:
+        # every push is unwrapped
+        one(r"AnswerContent::Data\(ref\s+answer\)\s*=>\s*\{\s*for\s+item\s+in\s+answer\.data\(\)\s*\{\s*" + P(a_item) + r"\s*\.unwrap\(\);\s*\}\s*\}\s*AnswerContent::Cname\(ref\s+cname\)\s*=>\s*" + P(a_cname) + r"\s*\.unwrap\(\)\s*,\s*AnswerContent::NoData\s*=>\s*\{\s*\}", tm, "to_message: answer section")
+        one(r"let\s+mut\s+builder\s*=\s*builder\.authority\(\);\s*if\s+let\s+Some\(authority\)\s*=\s*self\.authority\.as_ref\(\)\s*\{\s*if\s+let\s+Some\(soa\)\s*=\s*authority\.soa\.as_ref\(\)\s*\{\s*" + P(au("soa", r"soa\.data\(\)")) + r"\s*\.unwrap\(\);\s*\}\s*if\s+let\s+Some\(ns\)\s*=\s*authority\.ns\.as_ref\(\)\s*\{\s*for\s+item\s+in\s+ns\.data\(\)\s*\{\s*" + P(au("ns", "item")) + r"\s*\.unwrap\(\)\s*\}\s*\}\s*if\s+let\s+Some\(ref\s+ds\)\s*=\s*authority\.ds\s*\{\s*for\s+item\s+in\s+ds\.data\(\)\s*\{\s*" + P(au("ds", "item")) + r"\s*\.unwrap\(\)\s*\}\s*\}\s*\}", tm, "to_message: authority section SOA, NS, DS")
+        one(r"let\s+mut\s+builder\s*=\s*builder\.additional\(\);\s*if\s+let\s+Some\(additional\)\s*=\s*self\.additional\.as_ref\(\)\s*\{\s*for\s+item\s+in\s+&additional\.required\s*\{\s*builder\.push\(item\)\.unwrap\(\);\s*\}\s*for\s+item\s+in\s+&additional\.discardable\s*\{\s*if\s+builder\.push\(item\)\.is_err\(\)\s*\{\s*break;\s*\}\s*\}\s*\}\s*builder\s*$", tm, "to_message: additional section")
+        defs.append(("to_message_truncates", "bool", "false"))
+    else:
+        # a failed push stops the section, later sections are skipped, TC is set at the end
+        fail_break = r"\s*\.is_err\(\)\s*\{\s*truncated\s*=\s*true;\s*break;\s*\}"
+        fail = r"\s*\.is_err\(\)\s*\{\s*truncated\s*=\s*true;\s*\}"
+        if unwrapping != 2:
+            raise GenError("to_message: expected exactly the two unwraps of sole_question and start_answer, found %d" % unwrapping)
+        one(r"let\s+mut\s+truncated\s*=\s*false;\s*match\s+self\.content\s*\{\s*AnswerContent::Data\(ref\s+answer\)\s*=>\s*\{\s*for\s+item\s+in\s+answer\.data\(\)\s*\{\s*if\s+" + P(a_item) + fail_break + r"\s*\}\s*\}\s*AnswerContent::Cname\(ref\s+cname\)\s*=>\s*\{\s*if\s+" + P(a_cname) + fail + r"\s*\}\s*AnswerContent::NoData\s*=>\s*\{\s*\}", tm, "to_message: answer section (truncating)")
+        one(r"let\s+mut\s+builder\s*=\s*builder\.authority\(\);\s*if\s+let\s+Some\(authority\)\s*=\s*self\.authority\.as_ref\(\)\.filter\(\|_\|\s*!truncated\)\s*\{\s*if\s+let\s+Some\(soa\)\s*=\s*authority\.soa\.as_ref\(\)\s*\{\s*if\s+" + P(au("soa", r"soa\.data\(\)")) + fail + r"\s*\}\s*if\s+let\s+Some\(ns\)\s*=\s*authority\.ns\.as_ref\(\)\.filter\(\|_\|\s*!truncated\)\s*\{\s*for\s+item\s+in\s+ns\.data\(\)\s*\{\s*if\s+" + P(au("ns", "item")) + fail_break + r"\s*\}\s*\}\s*if\s+let\s+Some\(ds\)\s*=\s*authority\.ds\.as_ref\(\)\.filter\(\|_\|\s*!truncated\)\s*\{\s*for\s+item\s+in\s+ds\.data\(\)\s*\{\s*if\s+" + P(au("ds", "item")) + fail_break + r"\s*\}\s*\}\s*\}", tm, "to_message: authority section (truncating)")
+        one(r"let\s+mut\s+builder\s*=\s*builder\.additional\(\);\s*if\s+let\s+Some\(additional\)\s*=\s*self\.additional\.as_ref\(\)\.filter\(\|_\|\s*!truncated\)\s*\{\s*for\s+item\s+in\s+&additional\.required\s*\{\s*if\s+builder\.push\(item\)\.is_err\(\)\s*\{\s*truncated\s*=\s*true;\s*break;\s*\}\s*\}\s*if\s+!truncated\s*\{\s*for\s+item\s+in\s+&additional\.discardable\s*\{\s*if\s+builder\.push\(item\)\.is_err\(\)\s*\{\s*break;\s*\}\s*\}\s*\}\s*\}\s*if\s+truncated\s*\{\s*builder\.header_mut\(\)\.set_tc\(true\);\s*\}\s*builder\s*$", tm, "to_message: additional section, TC (truncating)")
+        defs.append(("to_message_truncates", "bool", "true"))
     mb = strip_comments(read("src/base/message_builder.rs"))
     sa = fn_body(mb, "start_answer")
     one(r"header\.set_id\(msg\.header\(\)\.id\(\)\);\s*header\.set_qr\(true\);\s*header\.set_opcode\(msg\.header\(\)\.opcode\(\)\);\s*header\.set_rd\(msg\.header\(\)\.rd\(\)\);\s*header\.set_rcode\(rcode\);\s*\}\s*let\s+mut\s+builder\s*=\s*self\.question\(\);\s*for\s+item\s+in\s+msg\.question\(\)\.flatten\(\)\s*\{\s*builder\.push\(item\)\?;\s*\}\s*Ok\(builder\.answer\(\)\)\s*$", sa, "MessageBuilder::start_answer")
@@ -184,6 +202,16 @@ def build():
     one(r"^\s*if\s+let\s+Some\(label\)\s*=\s*qname\.next\(\)\s*\{\s*if\s+let\s+Some\(node\)\s*=\s*self\.children\.get\(label\)\s*\{\s*if\s+let\s+Some\(zone\)\s*=\s*node\.find_zone\(qname\)\s*\{\s*return\s+Some\(zone\);\s*\}\s*\}\s*\}\s*self\.zone\.as_ref\(\)\s*$", fz, "ZoneSetNode::find_zone")
     one(r"^\s*match\s+apex_name\.next\(\)\s*\{\s*Some\(label\)\s*=>\s*self\.children\.get\(label\)\?\.get_zone\(apex_name\)\s*,\s*None\s*=>\s*self\.zone\.as_ref\(\)\s*,\s*\}\s*$", fn_body(zs, "get_zone"), "ZoneSetNode::get_zone")
     one(r"^\s*if\s+let\s+Some\(label\)\s*=\s*apex_name\.next\(\)\s*\{\s*self\.children\s*\.entry\(label\.into\(\)\)\s*\.or_default\(\)\s*\.insert_zone\(apex_name,\s*zone\)\s*\}\s*else\s+if\s+self\.zone\.is_some\(\)\s*\{\s*Err\(ZoneTreeModificationError::ZoneExists\)\s*\}\s*else\s*\{\s*self\.zone\s*=\s*Some\(zone\);\s*Ok\(\(\)\)\s*\}\s*$", fn_body(zs, "insert_zone"), "ZoneSetNode::insert_zone")
+    cl = strip_comments(read("src/base/iana/class.rs"))
+    m = one(r"\(\s*IN\s*=>\s*(\d+)\s*,\s*\"IN\"\s*\)", cl, "Class::IN")
+    defs.append(("class_in", "N", "%d%%N" % num(m.group(1))))
+    ro = impl_body(tr, r"impl Roots\s*\{")
+    one(r"^\s*if\s+class\s*==\s*Class::IN\s*\{\s*Some\(&self\.in_\)\s*\}\s*else\s*\{\s*self\.others\.get\(&class\)\s*\}\s*$", fn_body(ro, "get"), "Roots::get")
+    one(r"^\s*if\s+class\s*==\s*Class::IN\s*\{\s*&mut\s+self\.in_\s*\}\s*else\s*\{\s*self\.others\.entry\(class\)\.or_default\(\)\s*\}\s*$", fn_body(ro, "get_or_insert"), "Roots::get_or_insert")
+    zt = impl_body(tr, r"impl ZoneTree\s*\{")
+    one(r"self\.roots\.get\(class\)\?\.find_zone\(qname\.iter_labels\(\)\.rev\(\)\)", fn_body(zt, "find_zone"), "ZoneTree::find_zone")
+    one(r"self\.roots\.get_or_insert\(zone\.class\(\)\)\.insert_zone\(", fn_body(zt, "insert_zone"), "ZoneTree::insert_zone")
+    one(r"if\s+let\s+Some\(root\)\s*=\s*self\.roots\.get_mut\(class\)\s*\{\s*root\.remove_zone\(apex_name\.iter_labels\(\)\.rev\(\)\)\s*\}\s*else\s*\{\s*Err\(ZoneTreeModificationError::ZoneDoesNotExist\)\s*\}", fn_body(zt, "remove_zone"), "ZoneTree::remove_zone")
     rz = fn_body(zs, "remove_zone")
     old = re.search(r"^\s*match\s+apex_name\.next\(\)\s*\{\s*Some\(label\)\s*=>\s*\{\s*if\s+self\.children\.remove\(label\)\.is_none\(\)\s*\{\s*return\s+Err\(ZoneTreeModificationError::ZoneDoesNotExist\);\s*\}\s*\}\s*None\s*=>\s*\{\s*self\.zone\s*=\s*None;\s*\}\s*\}\s*Ok\(\(\)\)\s*$", rz, re.S)
     new = re.search(r"^\s*match\s+apex_name\.next\(\)\s*\{\s*Some\(label\)\s*=>\s*match\s+self\.children\.get_mut\(label\)\s*\{\s*Some\(node\)\s*=>\s*node\.remove_zone\(apex_name\)\s*,\s*None\s*=>\s*Err\(ZoneTreeModificationError::ZoneDoesNotExist\)\s*,\s*\}\s*,\s*None\s*=>\s*\{\s*if\s+self\.zone\.take\(\)\.is_none\(\)\s*\{\s*Err\(ZoneTreeModificationError::ZoneDoesNotExist\)\s*\}\s*else\s*\{\s*Ok\(\(\)\)\s*\}\s*\}\s*\}\s*$", rz, re.S)
